@@ -96,6 +96,19 @@ Example fix_import_appending_breaks_a_live_store :
   | None => False
   end.
 Proof. vm_compute. repeat split; discriminate. Qed.
+(** the repair step leaves the stream of a store alone: nothing is sent, nothing that is queued is lost, the node table stays *)
+Lemma fix_import_x_outq b c st : outq (fix_import_x b c st) = outq st.
+Proof.
+  unfold fix_import_x.
+  destruct (fix_import_frame c (if b then clear_vd st else st)) as (_ & _ & _ & _ & _ & H & _).
+  rewrite H. destruct b; reflexivity.
+Qed.
+Lemma fix_import_x_same_tab b c st : same_tab st (fix_import_x b c st).
+Proof.
+  unfold fix_import_x. destruct b.
+  - apply (same_tab_trans st (clear_vd st)); [apply clear_vd_same_tab|apply fix_import_same_tab].
+  - apply fix_import_same_tab.
+Qed.
 Print Assumptions fix_import_repaired_wf.
 Print Assumptions fix_import_repairs_interrupted.
 Print Assumptions fix_import_appending_breaks_a_live_store.
